@@ -117,6 +117,12 @@ def fence_corpus(maxlines=4):
         t = "---\n" + y + "---\nstep @a{1}\n"
         out.append(dict(text=t, src="frontmatter"))
         out.append(dict(text=t.replace("\n", "\r\n"), src="frontmatter"))
+    # a front matter that is not read (YAML error, no mapping, a key twice) in front of `>>` lines, bracketed keys among them
+    for y in ["title: [unclosed\n", "- a\n- b\n", "just text\n", "42\n", "k: v\nk: w\n"]:
+        for b in [">> [foo]: x\nstep\n", ">> [mode]: steps\n>> k: v\n@a\n", ">> k: v\n", "step\n"]:
+            t = "---\n" + y + "---\n" + b
+            out.append(dict(text=t, src="frontmatter"))
+            out.append(dict(text=t.replace("\n", "\r\n"), src="frontmatter"))
     for lead in ["\n", "  \n", "\n\n", " k2: w\n", "é: ü\n\n"]:
         for y in yaml + ["time: x\n", "servings: [1, 1]\n", "a: [\n"]:
             for tail in ["", "\n", " \n"]:
